@@ -300,7 +300,7 @@ func init() {
 			}
 			return []Conf{{Name: "random", Weight: 1}}
 		},
-		Strategies: []string{"uniform", "pct", "pct", "starve", "starve"},
+		Strategies: []string{"uniform", "pct", "pct", "starve", "starve", "lag"},
 		Components: h1Components,
 		Rule: "1-3 runtime goroutines each creating 1-4 containers (store update + CreateContainer inside BlockPluginSync/Unblock) while 1-4 plugins register (0-1 registered earlier, 0-2 containers pre-existing); " +
 			"non-trivial = some plugin learned of some containers through its snapshot and of others through creation requests, i.e. its registration really fell between creations; distinct = distinct event-log hash",
